@@ -28,7 +28,8 @@ type c19Case struct {
 	CSel   int       `json:"csel"`
 	NSel   int       `json:"nsel"`
 	ByIncr bool      `json:"selectors_reached_by_increment"`
-	Dest   int       `json:"dest"` // 0 Renderer, 1 Encoder
+	Zero   bool      `json:"increments_write_zero,omitempty"` // with ByIncr: two incrementing writes of zero values each
+	Dest   int       `json:"dest"`                            // 0 Renderer, 1 Encoder
 	Desc   string    `json:"desc,omitempty"`
 }
 
@@ -126,9 +127,9 @@ func init() {
 							if !w.Thorough && n > 65 && n%16 != 0 && model > 0 {
 								continue
 							}
-							for _, by := range []bool{false, true} {
+							for by := 0; by < 3; by++ {
 								for dest := 0; dest < 2; dest++ {
-									cs := c19Case{Kind: 1 + (n+model)%3, Spread: (n + u) % 4, NStops: n, Model: model, CSel: u, NSel: nsel, ByIncr: by, Dest: dest}
+									cs := c19Case{Kind: 1 + (n+model)%3, Spread: (n + u) % 4, NStops: n, Model: model, CSel: u, NSel: nsel, ByIncr: by > 0, Zero: by == 2, Dest: dest}
 									g := c19Geoms()[(n*4+model)%24]
 									cs.Kind = g.kind
 									for i := range g.p {
@@ -200,7 +201,14 @@ func c19Check(w *mc.W, cs *c19Case) {
 		e.HighResolutionCoordinates = true
 	}
 	// reach the prior selector state
-	if cs.ByIncr {
+	if cs.ByIncr && cs.Zero {
+		g.SetCSel(uint8(cs.CSel-2) & 63)
+		g.SetCReg(0, true, rgba(0, 0, 0, 0))
+		g.SetCReg(0, true, rgba(0, 0, 0, 0xff))
+		g.SetNSel(uint8(cs.NSel-2) & 63)
+		g.SetNReg(0, true, 0)
+		g.SetNReg(0, true, 0)
+	} else if cs.ByIncr {
 		g.SetCSel(uint8(cs.CSel-1) & 63)
 		g.SetCReg(0, true, rgba(1, 2, 3, 0xff))
 		g.SetNSel(uint8(cs.NSel-1) & 63)
@@ -235,20 +243,25 @@ func c19Check(w *mc.W, cs *c19Case) {
 	n0 := len(rd.Calls)
 	stops := c19Stops(cs.NStops, cs.Model)
 	spread := generate.GradientSpread(cs.Spread)
-	var err error
 	shape := 1
 	switch cs.Kind {
 	case 0:
 		shape = cs.Spread % 2
-		err = g.SetGradient(generate.GradientShape(shape), spread, stops, generate.Aff3(p))
 	case 1:
 		shape = 0
-		err = g.SetLinearGradient(p[0], p[1], p[2], p[3], spread, stops)
-	case 2:
-		err = g.SetCircularGradient(p[0], p[1], p[2], p[3], spread, stops)
-	case 3:
-		err = g.SetEllipticalGradient(p[0], p[1], p[2], p[3], p[4], p[5], spread, stops)
 	}
+	call := func(stops []generate.GradientStop) error {
+		switch cs.Kind {
+		case 0:
+			return g.SetGradient(generate.GradientShape(shape), spread, stops, generate.Aff3(p))
+		case 1:
+			return g.SetLinearGradient(p[0], p[1], p[2], p[3], spread, stops)
+		case 2:
+			return g.SetCircularGradient(p[0], p[1], p[2], p[3], spread, stops)
+		}
+		return g.SetEllipticalGradient(p[0], p[1], p[2], p[3], p[4], p[5], spread, stops)
+	}
+	err := call(stops)
 	newCalls := rd.Calls[n0:]
 	// expected outcome class
 	var wantErr error
@@ -427,9 +440,10 @@ func c19Check(w *mc.W, cs *c19Case) {
 			}
 		}
 		var paint *rec.Paint
+		var sp image.Point
 		for i := range ras.Calls {
 			if ras.Calls[i].K == rec.RDraw {
-				paint = &ras.Calls[i].Paint
+				paint, sp = &ras.Calls[i].Paint, ras.Calls[i].SP
 			}
 		}
 		if paint == nil || paint.Kind != 2 {
@@ -456,6 +470,101 @@ func c19Check(w *mc.W, cs *c19Case) {
 			return (x - float64(c19VB.MinX)) * sx, (y - float64(c19VB.MinY)) * sy
 		}) {
 			return
+		}
+		// the stops given are the ones rendered: the paint evaluated on a pixel grid (every
+		// stop count 2..58 at one selector state, and every geometry of part B)
+		if cs.CSel == 5 {
+			rst := make([]ref.Stop, len(stops))
+			for i := range rst {
+				rst[i] = ref.Stop{Offset: paint.Offsets[i], Color: paint.Colors[i]}
+			}
+			pm := paint.M
+			for py := 0; py < c19Rect.Dy(); py += 4 {
+				for px := 0; px < c19Rect.Dx(); px += 4 {
+					cx, cy := float64(px+sp.X)+0.5, float64(py+sp.Y)+0.5
+					o := pm[0]*cx + pm[1]*cy + pm[2]
+					if shape == 1 {
+						o = math.Hypot(o, pm[3]*cx+pm[4]*cy+pm[5])
+					}
+					if math.IsNaN(o) || math.IsInf(o, 0) || ref.NearDiscontinuity(cs.Spread, o, 1e-9) {
+						w.Skip()
+						continue
+					}
+					w.EvalN(1)
+					r, g, b, a := paint.Img.At(px+sp.X, py+sp.Y).RGBA()
+					got := [4]float64{float64(r), float64(g), float64(b), float64(a)}
+					var want [4]float64
+					if so, visible := ref.SpreadOffset(cs.Spread, o); visible {
+						want, _ = ref.GradColor(rst, so)
+					}
+					for k := 0; k < 4; k++ {
+						if math.Abs(got[k]-want[k]) > 1 {
+							fail("paint:rendered-colour", fmt.Sprintf("pixel (%d,%d) has offset %g: painted %v, the stops give %v", px, py, o, got, want))
+							return
+						}
+					}
+				}
+			}
+		}
+	}
+	// One Generator, two graphics: the same stops slice is passed again after a Reset, and then
+	// once more, without a Reset, after its contents changed. Each time the registers the
+	// gradient value names must hold the stops as they are at the call.
+	if cs.NStops >= 1 && cs.CSel%8 == 5 {
+		for round := 2; round <= 3; round++ {
+			n1 := len(rd.Calls)
+			if round == 2 {
+				g.Reset(c19VB, ivg.DefaultPalette)
+				g.SetCSel(uint8(cs.CSel))
+				g.SetNSel(uint8(cs.NSel))
+			} else {
+				for i := range stops {
+					stops[i].Color = c19Color((cs.Model+1)%4, i+3, len(stops))
+				}
+			}
+			if rerr := call(stops); rerr != nil {
+				fail("repeat:spurious-error", fmt.Sprintf("call %d with the same stops slice returned %v", round, rerr))
+				return
+			}
+			var vm2 ref.VM
+			vm2.Reset(ivg.DefaultPalette)
+			from := n1
+			if round == 3 {
+				from = 0
+				for i := n1 - 1; i >= 0; i-- {
+					if rd.Calls[i].M == rec.MReset {
+						from = i
+						break
+					}
+				}
+			}
+			keep := vm
+			vm = vm2
+			mirror(rd.Calls[from:])
+			vm2, vm = vm, keep
+			k2, gv2 := rec.ColorParts(rd.Calls[n1+map[int]int{2: 3, 3: 0}[round]].C)
+			if k2 != rec.KRGBA || !ref.IsGradient(gv2) || vm2.CReg[cs.CSel] != gv2 || int(vm2.CSel) != cs.CSel || int(vm2.NSel) != cs.NSel {
+				fail("repeat:gradient-register", fmt.Sprintf("call %d: CREG[CSEL] holds %v, selectors %d/%d; calls: %s", round, vm2.CReg[cs.CSel], vm2.CSel, vm2.NSel, rec.CallsString(rd.Calls[n1:])))
+				return
+			}
+			cb, nb := gv2.G&63, gv2.B&63
+			for i, st := range stops {
+				want := color.RGBAModel.Convert(st.Color).(color.RGBA)
+				if got := vm2.CReg[(cb+uint8(i))&63]; got != want {
+					fail("repeat:stop-colour-register", fmt.Sprintf("call %d with the same stops slice (round 2: after Reset; round 3: contents changed): stop %d colour should be %v, CREG[CBASE+%d] holds %v", round, i, want, i, got))
+					return
+				}
+				if got := vm2.NReg[(nb+uint8(i))&63]; f32b(got) != f32b(st.Offset) {
+					fail("repeat:stop-offset-register", fmt.Sprintf("call %d with the same stops slice: stop %d offset should be %g, NREG[NBASE+%d] holds %g", round, i, st.Offset, i, got))
+					return
+				}
+			}
+			for i := 1; i <= 6; i++ {
+				if a, b := vm2.NReg[(nb-uint8(i))&63], float32(M[6-i]); cs.Dest == 0 && f32b(a) != f32b(b) {
+					fail("repeat:matrix-register", fmt.Sprintf("call %d: matrix register NREG[NBASE-%d] holds %g, the first call stored %g", round, i, a, b))
+					return
+				}
+			}
 		}
 	}
 	h.Byte(byte(cs.NStops))
